@@ -369,6 +369,65 @@ func (in *Inst) TxIllegalProposal(h uint32, node *Key) interfaces.Transaction {
 		&payload.DPOSIllegalProposals{Evidence: a, CompareEvidence: b}, []*common2.Attribute{}, []*common2.Input{}, []*common2.Output{}, 0, []*program.Program{})
 }
 
+// arbiterKeys returns the harness keys of the current arbiters, or nil if one is unknown or not
+// normal.
+func (in *Inst) arbiterKeys() []*Key {
+	var out, seats []*Key
+	for _, a := range in.A.GetArbitrators() {
+		if !a.IsNormal {
+			return nil
+		}
+		if k := in.nodeKey(a.NodePublicKey); k != nil {
+			out = append(out, k) // elected producers first: they are the double signers
+			continue
+		}
+		var seat *Key
+		for _, k := range in.W.CRCSeat {
+			if bytes.Equal(k.PK, a.NodePublicKey) {
+				seat = k
+			}
+		}
+		if seat == nil {
+			return nil
+		}
+		seats = append(seats, seat)
+	}
+	return append(out, seats...)
+}
+
+// TxIllegalBlocks: evidence that two different blocks of height h-1 were both confirmed; each
+// confirmation is signed by three of the four arbiters, the two that signed both are the
+// illegal ones (the state reads the intersection of the two signer lists).
+func (in *Inst) TxIllegalBlocks(h uint32, arb []*Key) interfaces.Transaction {
+	mk := func(tag byte, signers []*Key) payload.BlockEvidence {
+		hdr := common2.Header{Version: 1, Height: h - 1, Timestamp: 1600000000 + 120*(h-1) + uint32(tag), Bits: 0x207fffff}
+		hb := new(bytes.Buffer)
+		hdr.Serialize(hb)
+		p := payload.DPOSProposal{Sponsor: signers[0].PK, BlockHash: hdr.Hash(), ViewOffset: 0}
+		p.Sign = in.W.signOnce(signers[0], p.Data())
+		cf := payload.Confirm{Proposal: p}
+		ev := payload.BlockEvidence{Header: hb.Bytes()}
+		for _, k := range signers {
+			v := payload.DPOSProposalVote{ProposalHash: p.Hash(), Signer: k.PK, Accept: true}
+			v.Sign = in.W.signOnce(k, v.Data())
+			cf.Votes = append(cf.Votes, v)
+			ev.Signers = append(ev.Signers, k.PK)
+		}
+		cb := new(bytes.Buffer)
+		cf.Serialize(cb)
+		ev.BlockConfirm = cb.Bytes()
+		return ev
+	}
+	a := mk(1, []*Key{arb[0], arb[1], arb[2]})
+	b := mk(2, []*Key{arb[0], arb[1], arb[3]})
+	if a.BlockHash().Compare(b.BlockHash()) > 0 {
+		a, b = b, a
+	}
+	pl := &payload.DPOSIllegalBlocks{CoinType: payload.ELACoin, BlockHeight: h - 1, Evidence: a, CompareEvidence: b}
+	return functions.CreateTransaction(common2.TxVersion09, common2.IllegalBlockEvidence, payload.IllegalBlockVersion, pl,
+		[]*common2.Attribute{}, []*common2.Input{}, []*common2.Output{}, 0, []*program.Program{})
+}
+
 func (in *Inst) TxRevertToPOW(h uint32) interfaces.Transaction {
 	return functions.CreateTransaction(common2.TxVersion09, common2.RevertToPOW, payload.RevertToPOWVersion,
 		&payload.RevertToPOW{Type: payload.NoBlock, WorkingHeight: h}, []*common2.Attribute{}, []*common2.Input{}, []*common2.Output{}, 0, []*program.Program{})
@@ -657,6 +716,18 @@ func (in *Inst) OpsFor(only []int) []string {
 			}
 		}
 	}
+	// illegal-block evidence (forces an arbiter change): four normal arbiters with harness keys,
+	// DPoS consensus, DPoS v2 not yet running
+	if h >= HPublicDPOS && !pow && h < in.A.DPoSV2ActiveHeight {
+		if ks := in.arbiterKeys(); len(ks) == 4 {
+			ops = append(ops, "illblk")
+			// double signers = configured CRC seats (no producer turns illegal, the force change
+			// can succeed with the four producers)
+			if in.nodeKey(ks[3].PK) == nil && in.nodeKey(ks[2].PK) == nil {
+				ops = append(ops, "illblkseat")
+			}
+		}
+	}
 	if h >= HNewCR {
 		if !pow {
 			ops = append(ops, "pow")
@@ -738,6 +809,11 @@ func (in *Inst) Apply(op string) {
 	case "illegal":
 		p := in.prod(atoi(arg))
 		in.Process(in.TxIllegalProposal(h, in.nodeKey(p.NodePublicKey())))
+	case "illblk":
+		in.Process(in.TxIllegalBlocks(h, in.arbiterKeys()))
+	case "illblkseat":
+		ks := in.arbiterKeys()
+		in.Process(in.TxIllegalBlocks(h, []*Key{ks[2], ks[3], ks[0], ks[1]}))
 	case "pow":
 		in.Process(in.TxRevertToPOW(h))
 	case "dpos":
